@@ -16,6 +16,7 @@ META_CLASS = {'meta': ['isEnded', 'isExpired', 'isTimedOut', 'onCooldown', 'shou
 HIST_CLASS = {'hstep': ['mode', 'cfwd', 'op', 'ck', 'st', 'plan', 'status', 'fwd', 'upauth', 'contacted', 'granted', 'pst', 'idtok', 'autologin', 'ignored'],
               'hafter': ['op', 'lstatus', 'deleted', 'status', 'upauth'], 'hstart': ['mode']}
 HIST_CLASS['lockwait'] = ['handler', 'what', 'status', 'contacted', 'upauth', 'exists']
+HIST_CLASS['lease'] = ['handler', 'unlock', 'status', 'lockleft', 'latecmds']
 HIST_CLASS['mixedcfg'] = ['handler', 'idlemin', 'status', 'contacted', 'upauth']
 HIST_NT = {'hstep': lambda f: f.get('ck') != '0', 'hstart': lambda f: False}
 LOCKWAIT_RULE = (" lockwait driver: a refreshing request (manual refresh, proxied request, forward-auth) waits for the refresh lock held by another replica while the session "
@@ -145,7 +146,7 @@ PROPS = {
     'C10': {
         'proofs': ['Ww.Proofs.C10', 'Ww.Proofs.GenTie.C07'],
         'gen_sections': ['Consts'] + MANAGER_SECTIONS,
-        'drivers': [{'name': 'sched'}, {'name': 'hist'}],
+        'drivers': [{'name': 'sched'}, {'name': 'hist'}, {'name': 'lease'}],
         'reasons': ['C10.'],
         'class_fields': _merge(HIST_CLASS, {'sched': ['store', 'procs', 'crash', 'trace', 'statuses', 'exists']}),
         'nontrivial': _merge(HIST_NT, {'sched': lambda f: True}),
